@@ -590,7 +590,7 @@ Definition auth_phase (c : cfg) (cparams : list (bytes * bytes)) (s : bytes) : l
                             match validate db user pw with
                             | VAccept => ([Out (BAuth 3); CbValidate db user pw; Out (BAuth 0)], rest, true)
                             | VReject => ([Out (BAuth 3); CbValidate db user pw;
-                                           Out (err_msg (Some e_invalid_password)); Out ready], [], false)
+                                           Out (err_msg (Some e_invalid_password))], [], false)
                             | VFail => ([Out (BAuth 3); CbValidate db user pw], [], false)
                             end
                         end
